@@ -226,7 +226,7 @@ func checkC05(c *Case, st *Stats) string {
 			hist += "rejected-parse "
 		case "paniccall":
 			i := op.A % len(docs)
-			rec.PanicNext = true
+			rec.PanicNext = 1 + len(hist)%3
 			func() {
 				defer func() {
 					if r := recover(); r != nil {
@@ -239,7 +239,7 @@ func checkC05(c *Case, st *Stats) string {
 				}()
 				_, _ = f(docs[i])
 			}()
-			rec.PanicNext = false
+			rec.PanicNext = 0
 		case "bigresult":
 			big := bigArray(op.A / 10)
 			if got, err := jsonpath.Retrieve("$[*,*,*,*,*,*,*,*,*,*]", big); err != nil || len(got) != len(big)*10 {
